@@ -276,12 +276,16 @@ def quick_deterministic():
                             tag = TAGS[(n + r) % 2]
                             n += 1
                             yield case(mn, pre + stmt_ops(form, lg, sv, tag, shape_items(sh))), "stmt-grid"
+                        # every callable kind at every cell of the grid, in this form
+                        for j, k in enumerate(CKINDS):
+                            sh = k if (n + j) % 2 else "S" + k
+                            yield case(mn, pre + stmt_ops(form, lg, sv, TAGS[(n + j) % 2], shape_items(sh))), "kind-grid"
     for mn in range(6):
         for sv in range(6):
             for form in "on":
                 for tag in TAGS:
-                    for sh in SHAPES:
-                        for lg, pre in ((5, [op_set(0, 1), op_set(1, 4)]), (0, [])):
+                    for lg, pre in ((5, [op_set(0, 1), op_set(1, 4)]), (0, [])):
+                        for sh in shapes_for(lg):
                             yield case(mn, pre + stmt_ops(form, lg, sv, tag, shape_items(sh))), "stmt-shapes"
 
 
